@@ -715,7 +715,20 @@ def check_case(ctx, case, reads, stratum="program"):
 
     h, _ = c02.build(case)
     check_export(ctx, h, case, stratum, reads)
-    return len(h)
+    nn = len(h)
+    if nn % 2:
+        # the HUGR is changed after it has been exported (still valid and module-rooted: metadata written on every
+        # third node, a function declaration added) and exported again: everything is judged anew
+        from hugr import ops, tys
+
+        ctx.count("monitor:export-after-change")
+        for k, n in enumerate(list(h)):
+            if k % 3 == 1:
+                h[n].metadata["written-after-export"] = k
+        h.add_node(ops.FuncDecl("declared.after.export", tys.PolyFuncType([], tys.FunctionType([tys.Bool], []))),
+                   h.root, metadata={"late": True})
+        check_export(ctx, h, case, stratum, reads)
+    return nn
 
 
 def run(ctx):
